@@ -1,5 +1,6 @@
 """C09 — printed lines and their coordinates are the input's own; JSON output is lossless."""
 import base64
+import subprocess
 import json as pyjson
 import re
 
@@ -22,13 +23,21 @@ MANIFEST = dict(
          "write_colored_matches writes exactly the line); DecimalFormatter round-trips for every u64; base64_standard "
          "round-trips for every byte string (unbounded); Data is text iff utf8_valid; a JSON submatch is the slice of "
          "`lines` at its offsets; a file's messages are begin, one match/context message per delivered event in "
-         "stream order carrying that event's bytes, line number and offset, then end. Tie to the code: extracted models vs the real printers on "
+         "stream order carrying that event's bytes, line number and offset, then end. COLUMN LIMIT AND TRIM "
+         "(max_columns_line_or_notice, for every line / configuration / match list): the text of a record is the line "
+         "(under --trim minus its longest prefix of ASCII whitespace that is not a terminator byte) or, exactly when "
+         "its length in bytes incl. its terminator exceeds --max-columns, the omitted-line notice (with the number of "
+         "matches when known) or under --max-columns-preview a prefix ending at the limit-th grapheme boundary plus "
+         "the fixed notice; coordinates (line number, offset, column in the untrimmed line) are unaffected; without "
+         "limit and trim the model is the old one (no_limit_is_identity). Tie to the code: extracted models vs the real printers on "
          "generated cases; independent oracle: every printed record of rg / the library printers is re-located in the "
          "input bytes (line number, offset, column via an independent regex engine, text), JSON re-assembled.",
     note="trusted: Coq kernel, extraction, OCaml driver, Rust harness, Python re as independent matcher for the column "
          "oracle (restricted pattern pool); utf8_valid is differentially tested against std::str::from_utf8 and "
          "Python's decoder, not proved against a Unicode specification; only-matching / per-match MULTI-LINE paths "
-         "are modelled and corresponded, no theorem; JSON round trip is for rg's configuration without -m; that the searcher's "
+         "are modelled and corresponded, no theorem (and not modelled at all with a column limit or --trim); bstr's "
+         "grapheme segmentation is a universally quantified function in the theorems and tabulated from the real "
+         "crate per case; JSON round trip is for rg's configuration without -m; that the searcher's "
          "events are the input's lines is C03's theorem (checked here by the oracle)",
     technique="Coq proof over executable models + extracted-model/implementation correspondence + input re-location oracle",
     design="§7 C09")
@@ -547,6 +556,340 @@ def directed_line_buffered(ctx):
         os.rmdir(d)
 
 
+# ----------------------------------------------------------------------------- --max-columns / --max-columns-preview / --trim (kind 901)
+
+WS = [b" ", b"  ", b"\t", b" \t ", b"\x0b", b"\x0c ", b"\r", b""]
+# multi-byte material around the cut: 2/3/4-byte characters, combining mark, regional-indicator pair, ZWJ sequence,
+# Hangul jamo, invalid bytes
+UNI = ["é".encode(), "€".encode(), "😀".encode(), "é".encode(), "🇩🇪".encode(), "👩‍💻".encode(),
+       "가".encode(), b"\xff", b"\xe2\x82", b"\xc3"]
+COLS_PATTERNS = ["a", "b+", "[ab]", "x", " ", "é", "a[bc]?", r"\t", "[0-9]", "c"]
+
+
+def cols_mode_val(m):
+    return pl.mode_val(m)[:-1] + " " + pl.onum(m["maxcol"]) + " " + str(int(m["preview"])) + " " + str(int(m["trim"])) + ")"
+
+
+def cols_case_val(c):
+    return vlib.vlist([vbytes(c["pattern"]), pl.flags_val(c["flags"]),
+                       vlib.vlist([vlib.vlist([pl.obytes(p), vbytes(i)]) for p, i in c["files"]]),
+                       vlib.vlist([cols_mode_val(m) for m in c["modes"]])])
+
+
+def gen_cols_file(rng, crlf):
+    lines = []
+    for _ in range(rng.randint(1, 6)):
+        parts = [rng.choice(WS) if rng.random() < 0.6 else b""]
+        for _ in range(rng.randint(0, 6)):
+            k = rng.random()
+            if k < 0.3:
+                parts.append(rng.choice(UNI))
+            elif k < 0.4:
+                parts.append(rng.choice(WS))
+            else:
+                parts.append(bytes(rng.choice(b"ab xc1") for _ in range(rng.randint(1, 4))))
+        ln = b"".join(parts).replace(b"\n", b"")
+        if not crlf or rng.random() < 0.5:
+            ln = ln.replace(b"\r", b"")          # a \r inside a line only sometimes (it is trimmable unless --crlf)
+        lines.append(ln)
+    term = b"\r\n" if crlf else b"\n"
+    s = b""
+    for i, ln in enumerate(lines):
+        s += ln
+        if i + 1 < len(lines) or rng.random() < 0.7:
+            s += term if (not crlf or rng.random() < 0.85) else b"\n"
+    return s
+
+
+def cols_full_mode(fl, maxcol, preview, trim, col=1, bo=0, only=0):
+    ctx_on = bool(fl.get("after") or fl.get("before"))
+    m = mstd(col=col, bo=bo, only=only, sc=b"--", ss=b"--" if ctx_on else None)
+    m.update(maxcol=maxcol, preview=preview, trim=trim)
+    return m
+
+
+def gen_cols_case(rng):
+    fl = dict(line_number=int(rng.random() < 0.8), binary=0)
+    fl["multiline"] = int(rng.random() < 0.15)
+    fl["crlf"] = int(rng.random() < 0.25)
+    fl["invert"] = int(rng.random() < 0.1)
+    fl["ignore_case"] = int(rng.random() < 0.1)
+    k = rng.random()
+    if k < 0.1:
+        fl["passthru"] = 1
+    elif k < 0.35:
+        fl["after"] = rng.choice([0, 1])
+        fl["before"] = rng.choice([0, 1])
+    pat = rng.choice(COLS_PATTERNS + ([r"a\n *b", r"[ab]\n", r"c\n\s*"] * 2 if fl["multiline"] else []))
+    files = [(NAMES[i], gen_cols_file(rng, fl["crlf"])) for i in range(rng.randint(1, 2))]
+    lens = [len(ln) for _, d in files for ln in d.split(b"\n")] or [0]
+
+    def limit():
+        k = rng.random()
+        if k < 0.12:
+            return None
+        if k < 0.2:
+            return rng.choice([0, 1, 2])
+        return max(0, rng.choice(lens) + rng.choice([-4, -3, -2, -1, 0, 0, 1, 2]))
+    modes = [cols_full_mode(fl, limit(), int(rng.random() < 0.5), int(rng.random() < 0.5),
+                            col=int(rng.random() < 0.6), bo=int(rng.random() < 0.3))]
+    for _ in range(2):
+        lineonly = True
+        m = mstd(heading=rng.random() < 0.3, path=rng.random() < 0.8, pm=lineonly and rng.random() < 0.2,
+                 pm1=rng.random() < 0.5, col=rng.random() < 0.5, bo=rng.random() < 0.4, stats=rng.random() < 0.2,
+                 ss=rng.choice([None, b"", b"=="]), sc=rng.choice([None, b"--"]), sm=rng.choice([b":", b"|"]),
+                 sx=rng.choice([b"-", b"+"]), pt=rng.choice([None, None, 0]), only=lineonly and rng.random() < 0.3,
+                 mx=rng.choice([None, None, None, 1, 2]))
+        m.update(maxcol=limit(), preview=int(rng.random() < 0.5), trim=int(rng.random() < 0.5))
+        modes.append(m)
+    return dict(pattern=pat, flags=fl, files=files, modes=modes)
+
+
+def cols_corpus():
+    L = dict(line_number=1, binary=0)
+
+    def mk(pat, fl, files, *ms):
+        return dict(pattern=pat, flags=fl, files=[(NAMES[i], d) for i, d in enumerate(files)],
+                    modes=[cols_full_mode(fl, *m) for m in ms])
+    return [
+        # the witnesses of the observations (limit counts the terminator; --trim and the "more matches" count)
+        mk("abc", L, [b"abc\n", b"abc"], (3, 0, 0), (3, 1, 0), (4, 0, 0)),
+        mk("foo", L, [b"  foo xxxxxxxx\n", b"foo xxxxxxxx\n"], (2, 1, 1), (2, 1, 0), (2, 0, 1)),
+        # the printer's own tests: max_columns, max_columns_preview, trim_ascii
+        mk("Doctor Watsons|Sherlock", L, [b"For the Doctor Watsons of this world, as opposed to the Sherlock\n"
+                                         b"Holmeses, success in the province of detective work must always\n"],
+           (63, 0, 0), (46, 1, 0), (46, 1, 1)),
+        mk("Watson", L, [b"     Watson\n\t\x0b\x0c Watson  \n\n   \n"], (None, 0, 1), (3, 1, 1), (0, 0, 1), (0, 1, 1)),
+        mk("a", dict(L, crlf=1), [b" \r a\r\n\r\r\n a\xc3\xa9\xc3\xa9\r\n"], (2, 1, 1), (3, 1, 0), (1, 0, 1)),
+        # cuts next to multi-byte graphemes
+        mk("x", L, ["x🇩🇪🇩🇪é\n xééx\n".encode()], (2, 1, 0), (3, 1, 1), (4, 1, 0), (1, 1, 1)),
+        mk("x", dict(L, after=1), [b"x\xff\xff\xff\n  \xe2\x82 long context line\n"], (2, 1, 1), (2, 0, 0)),
+        mk(r"a\n *b", dict(L, multiline=1), [b"  xa\n   b and more\nz\n"], (4, 1, 1), (4, 0, 0), (None, 0, 1)),
+        # -U -o and -U --vimgrep with a limit (the printer's only_matching_max_columns_multi_line tests' shape)
+        dict(pattern=r"a+\n *b+", flags=dict(L, multiline=1), files=[(NAMES[0], b"  xaaaaaaaa\n   bbbbbb and more\nz aa\nb\n")],
+             modes=[dict(mstd(only=1, col=1), maxcol=mc, preview=pv, trim=tr) for mc, pv, tr in ((5, 0, 0), (5, 1, 1), (3, 1, 0))]
+             + [dict(mstd(pm=1, pm1=p1, col=1), maxcol=mc, preview=pv, trim=tr)
+                for mc, pv, tr, p1 in ((5, 0, 0, 1), (5, 1, 1, 1), (5, 1, 0, 0), (12, 0, 1, 1))]),
+    ]
+
+
+def observe(ctx, cls):
+    """behaviour of --max-columns / --trim that differs from a reading of the documentation but is OUTSIDE property C09
+    (whose text excludes trimming and column limits): accepted, only counted in the evidence"""
+    feat = ctx.cov.setdefault("features", {})
+    feat["observation_" + cls] = feat.get("observation_" + cls, 0) + 1
+
+
+def cols_independent_oracle(ctx, c, m, out, where):
+    """From the documentation alone (no model): in a plain line-oriented run every record is the input line of its
+    number: verbatim (minus the trimmed whitespace) when it is not longer than the limit, a notice / preview when longer."""
+    fl = c["flags"]
+    if fl.get("multiline") or fl.get("invert") or fl.get("after") or fl.get("before") or fl.get("passthru") \
+            or not fl.get("line_number") or m["only"] or m["pm"] or m["bo"] or m["heading"] or not m["path"] \
+            or m["sm"] != b":" or m["pt"] is not None or m["ss"] is not None:
+        return
+    files = dict(c["files"])
+    term = b"\r\n" if fl.get("crlf") else b"\n"
+    for rec in out.split(b"\n"):
+        if not rec:
+            continue
+        mm = re.match(rb"(f\d):(\d+):" + (rb"(\d+):" if m["col"] else rb"()"), rec)
+        if not mm:
+            ctx.violation("%s: unparsable record under --max-columns/--trim" % where, dict(kind="cols-oracle", rec=repr(rec), c=cols_jsonable(c), mode=repr(m)))
+            return
+        ctx.cov["cols_oracle_records"] = ctx.cov.get("cols_oracle_records", 0) + 1
+        text = rec[mm.end():]
+        if fl.get("crlf") and text.endswith(b"\r"):
+            text = text[:-1]
+        lines = split_lines(files[mm.group(1)])
+        line = lines[int(mm.group(2)) - 1][1]
+        body = content(line, fl.get("crlf"))
+        if m["trim"]:
+            body = body.lstrip(b"\t\x0b\x0c " + (b"" if fl.get("crlf") else b"\r"))
+        limit = m["maxcol"]
+        notice = text.startswith(b"[Omitted long ") if not m["preview"] else (b" [... " in text and not text == body)
+        if limit is None or len(body) + len(line) - len(content(line, fl.get("crlf"))) <= limit:
+            if text != body:
+                ctx.violation("%s: a line not longer than the limit is not printed as it is" % where,
+                              dict(kind="cols-oracle", rec=repr(rec), expected=repr(body), c=cols_jsonable(c), mode=repr(m)))
+        elif len(body) <= limit:
+            # longer than the limit only if its terminator is counted: the code counts it; accepted either way
+            if text != body:
+                observe(ctx, "MaxColumnsCountsTerminator")
+        else:
+            ok = notice and (not m["preview"] or body.startswith(text[:text.index(b" [... ")]))
+            if not ok:
+                ctx.violation("%s: a line longer than the limit is printed neither as notice nor as a preview that is a "
+                              "prefix of it" % where,
+                              dict(kind="cols-oracle", rec=repr(rec), line=repr(body), c=cols_jsonable(c), mode=repr(m)))
+
+
+def cols_jsonable(c):
+    def jm(m):
+        return {k: (v.hex() if isinstance(v, bytes) else v) for k, v in m.items()}
+    return dict(pattern=c["pattern"], flags=c["flags"], files=[(p.hex(), d.hex()) for p, d in c["files"]],
+                modes=[jm(m) for m in c["modes"]])
+
+
+def cols_from_jsonable(d):
+    def jm(m):
+        return {k: (bytes.fromhex(v) if k in ("ss", "sc", "sm", "sx") and isinstance(v, str) else v) for k, v in m.items()}
+    return dict(pattern=d["pattern"], flags=d["flags"], files=[(bytes.fromhex(p), bytes.fromhex(x)) for p, x in d["files"]],
+                modes=[jm(m) for m in d["modes"]])
+
+
+def cols_cli_check(ctx, c, real):
+    """the rg binary with -M / --max-columns-preview / --trim against the library printer's first mode"""
+    fl = c["flags"]
+    m = c["modes"][0]
+    if any(b"\x00" in d for _, d in c["files"]) or m["pm"]:
+        return
+    args = pl.cli_flags(fl) + ["--sort", "path", "--with-filename", "--no-heading", "-n" if fl.get("line_number") else "-N",
+                               ctx.rng.choice(["--mmap", "--no-mmap"])]
+    if m["only"]:
+        args.append("-o")
+    if m["col"]:
+        args.append("--column")
+    else:
+        args.append("--no-column")
+    if m["bo"]:
+        args.append("-b")
+    if m["maxcol"] is not None:
+        args += ["-M", str(m["maxcol"])]
+    if m["preview"]:
+        args.append("--max-columns-preview")
+    if m["trim"]:
+        args.append("--trim")
+    with pl.Tree(c["files"]) as tree:
+        rc, out, err = pl.rg(args + ["-e", c["pattern"]] + tree.names, tree.dir)
+    if rc == 2:
+        ctx.violation("cli: rg failed on a --max-columns/--trim case: %r" % err[:200],
+                      dict(kind="cols-cli", args=args, c=cols_jsonable(c)), nfi=True)
+        return
+    ctx.cov["cols_cli_cases"] = ctx.cov.get("cols_cli_cases", 0) + 1
+    # -M 0 means "no limit" on the command line (hiargs.rs), Some(0) is a limit of 0 for the library
+    if m["maxcol"] == 0:
+        if b"[Omitted" in out or b" [... " in out:
+            ctx.violation("cli: -M 0 must disable the limit", dict(kind="cols-cli", args=args, out=repr(out[:600]), c=cols_jsonable(c)))
+        return
+    lib = as_bytes(real[0][0])
+    if out != lib:
+        ctx.violation("cli: rg -M/--max-columns-preview/--trim output differs from the library printer",
+                      dict(kind="cols-cli", args=args, cli=repr(out[:1500]), library=repr(lib[:1500]), c=cols_jsonable(c)))
+    cols_independent_oracle(ctx, c, m, out, "cli")
+
+
+def run_cols_batch(ctx, cases, cli_every):
+    lines = [cols_case_val(c) for c in cases]
+    outs = vlib.code(901, lines)
+    parsed, model_in, idx = [], [], []
+    for i, o in enumerate(outs):
+        v = None
+        if o in ("PANIC", "MISSING") or o.startswith("PARSEFAIL"):
+            ctx.violation("harness %s on a --max-columns/--trim case" % o, dict(kind=901, line=lines[i], c=cols_jsonable(cases[i])))
+        else:
+            v = parse_val(o)
+            if v[0] == 0:
+                model_in.append(pl.unparse(v[1]))
+                idx.append(i)
+            elif v[0] == 1:
+                ctx.cov["rejected_patterns"] = ctx.cov.get("rejected_patterns", 0) + 1
+            else:
+                # 2: the real searcher failed
+                ctx.violation("the harness could not run a generated --max-columns/--trim case (status %d)" % v[0],
+                              dict(kind=901, line=lines[i], c=cols_jsonable(cases[i])), nfi=True)
+        parsed.append(v)
+    mouts = vlib.model(901, model_in)
+    feat = ctx.cov.setdefault("cols_features", {})
+    for j, i in enumerate(idx):
+        c = cases[i]
+        v = parsed[i]
+        if not v[3]:
+            ctx.cov["skipped_searcher_broke_prefix_law_C16"] = ctx.cov.get("skipped_searcher_broke_prefix_law_C16", 0) + 1
+            continue
+        real = v[2]
+        # the one fact the theorems assume about bstr's segmentation (preview_is_a_prefix_within_the_cut): the ends of the
+        # graphemes of s ascend strictly and the last one is len(s)
+        for row in v[1][4]:
+            sbytes, ends = as_bytes(row[0]), (list(row[1]) if isinstance(row[1], (bytes, list)) else [])
+            ctx.cov["grapheme_rows"] = ctx.cov.get("grapheme_rows", 0) + 1
+            if any(b <= a for a, b in zip([0] + ends, ends)) or (ends[-1] if ends else 0) != len(sbytes):
+                ctx.violation("bstr's grapheme ends of %r are %r: not ascending up to the length (assumed contract of "
+                              "the preview theorems)" % (sbytes, ends), dict(kind=901, line=lines[i], c=cols_jsonable(c)), nfi=True)
+        mo = mouts[j]
+        mv = parse_val(mo) if mo.startswith("(") else mo
+        if not isinstance(mv, list) or len(mv) != len(real):
+            ctx.violation("--max-columns/--trim model produced no result (out of fuel / driver failure)",
+                          dict(kind=901, line=lines[i], model=repr(mv)[:500], c=cols_jsonable(c)), nfi=True)
+            continue
+        nontrivial = False
+        for k, m in enumerate(c["modes"]):
+            if mv[k] == [77]:
+                ctx.violation("the grapheme table of the harness lacks a byte string the model cuts (harness gap, no skip)",
+                              dict(kind=901, line=lines[i], mode=repr(m), c=cols_jsonable(c)), nfi=True)
+                continue
+            if mv[k] != real[k]:
+                ctx.violation("standard-printer model with --max-columns/--max-columns-preview/--trim and the real printer "
+                              "disagree (max_columns_line_or_notice no longer describes the code)",
+                              dict(kind=901, line=lines[i], mode=repr(m), pattern=c["pattern"], flags=c["flags"],
+                                   files=[(repr(p), repr(d)) for p, d in c["files"]], model=repr(mv[k])[:3000],
+                                   code=repr(real[k])[:3000], c=cols_jsonable(c)), nfi=True)
+            out = as_bytes(real[k][0])
+            if out:
+                nontrivial = True
+            if b"[Omitted long" in out:
+                feat["omitted"] = feat.get("omitted", 0) + 1
+            if b" [... " in out:
+                feat["preview"] = feat.get("preview", 0) + 1
+            if b" more match" in out:
+                feat["preview_with_count"] = feat.get("preview_with_count", 0) + 1
+            if m["trim"] and out:
+                feat["trim"] = feat.get("trim", 0) + 1
+            cols_independent_oracle(ctx, c, m, out, "library")
+        ctx.note_case(lines[i], nontrivial)
+        if cli_every and j % cli_every == 0:
+            cols_cli_check(ctx, c, real)
+        if nontrivial and ctx.rng.random() < 0.05:
+            ctx.sample(dict(pattern=c["pattern"], cols=[(m["maxcol"], m["preview"], m["trim"]) for m in c["modes"]],
+                            files=[d.decode("latin1")[:80] for _, d in c["files"]],
+                            out=as_bytes(real[0][0]).decode("latin1")[:300]))
+
+
+def directed_cols_findings(ctx):
+    """observations outside property C09 (its text excludes trimming and column limits), proved on the model as
+    limit_ignores_terminator_refuted / preview_count_under_trim_refuted / vimgrep_one_line_per_match_refuted: counted in the
+    evidence as observation_<Class> when the rg binary still shows them, never reported"""
+    rc, a, _ = pl.rg(["-N", "-M", "3", "abc"], vlib.CACHE, stdin=b"abc\n")
+    rc, b, _ = pl.rg(["-N", "-M", "3", "abc"], vlib.CACHE, stdin=b"abc")
+    if a != b"abc\n" and b == b"abc\n":
+        observe(ctx, "MaxColumnsCountsTerminator")
+    rc, t, _ = pl.rg(["--trim", "-M", "2", "--max-columns-preview", "--column", "foo"], vlib.CACHE, stdin=b"  foo xxxxxxxx\n")
+    rc, u, _ = pl.rg(["-M", "2", "--max-columns-preview", "--column", "foo"], vlib.CACHE, stdin=b"foo xxxxxxxx\n")
+    if b"0 more matches" in u and b"0 more matches" not in t:
+        observe(ctx, "PreviewCountUnderTrim")
+    rc, v5, _ = pl.rg(["-U", "--vimgrep", "-M", "5", r"a+\nb"], vlib.CACHE, stdin=b"aaaaaaaaaa\nb\n")
+    rc, v50, _ = pl.rg(["-U", "--vimgrep", "-M", "50", r"a+\nb"], vlib.CACHE, stdin=b"aaaaaaaaaa\nb\n")
+    if v50.count(b"\n") == 1 and v5.count(b"\n") == 2:
+        observe(ctx, "VimgrepOneLineLostOnLongLine")
+    # colours are outside the model; this one is observed on the binary only
+    rc, plain, _ = pl.rg(["--trim", "-M", "5", "-N", "abc"], vlib.CACHE, stdin=b"      abc\n")
+    p = subprocess.run([vlib.RG, "--no-config", "--color", "always", "--trim", "-M", "5", "-N", "abc"], cwd=vlib.CACHE,
+                       input=b"      abc\n", stdout=subprocess.PIPE, stderr=subprocess.PIPE)
+    if plain == b"abc\n" and b"[Omitted" in p.stdout:
+        observe(ctx, "ColourChangesOmittedLines")
+
+
+def run_cols(ctx):
+    ctx.cov["cols_rule"] = ("a case = pattern x flags x 1-2 files whose lines carry ASCII-whitespace prefixes and multi-byte "
+                            "graphemes x 3 printer configurations with max_columns near the line lengths (None, 0, len-4..len+2), "
+                            "preview, trim; model (kind 901) = real printer byte for byte; the first configuration also "
+                            "against the rg binary (-M/--max-columns-preview/--trim) and a documentation-level oracle")
+    run_cols_batch(ctx, cols_corpus(), cli_every=1)
+    directed_cols_findings(ctx)
+    n = ctx.count(300)
+    run_cols_batch(ctx, [gen_cols_case(ctx.rng) for _ in range(n)], cli_every=max(1, n // ctx.count(40)))
+
+
 def run(ctx):
     rng = ctx.rng
     ctx.cov["rule"] = ("a case = Python-compatible pattern x flags (-n -U --crlf -v -i -A/-B --passthru) x 1-3 files (incl. "
@@ -557,6 +900,7 @@ def run(ctx):
     directed_line_buffered(ctx)
     n = ctx.count(800)
     run_batch(ctx, [gen_case(rng) for _ in range(n)], cli_every=max(1, n // ctx.count(80)))
+    run_cols(ctx)
     # Data::from_bytes / base64 / DecimalFormatter: model = code = independent oracle
     from props import C10
     C10.check_small_models(ctx)
@@ -576,5 +920,8 @@ def replay(ctx, data):
         return C10.replay(ctx, data)
     if r.get("kind") == "cli-directed":
         return directed_line_buffered(ctx)
+    if r.get("kind") in (901, "cols-cli", "cols-oracle"):
+        directed_cols_findings(ctx)
+        return run_cols_batch(ctx, [cols_from_jsonable(r["c"])], cli_every=1)
     if "c" in r:
         run_batch(ctx, [pl.from_jsonable(r["c"])], cli_every=1 if r.get("kind") == "cli" else 0)
